@@ -27,6 +27,19 @@ pub fn force(mode: u8) {
     }
 }
 
+/// The needle slice for an exact-size needle array. For `N == 0` a
+/// zero-length slice of a live one-byte object is returned instead of a
+/// pointer to a zero-sized object (which CBMC models as an invalid pointer and
+/// which defeats its pointer simplifications: measured out-of-memory).
+#[inline(always)]
+pub fn nz<'a, const N: usize>(nb: &'a [u8; N], z: &'a [u8; 1]) -> &'a [u8] {
+    if N == 0 {
+        &z[..0]
+    } else {
+        &nb[..]
+    }
+}
+
 /// A haystack of symbolic length `min..=max` starting at offset 0 of a
 /// 64-aligned buffer.
 #[cfg(kani)]
@@ -75,7 +88,8 @@ pub mod blocks {
     /// Two-Way with a needle of exactly NLEN bytes, haystack 0..=HMAX.
     pub fn twoway_n<const NLEN: usize, const HMAX: usize>(rev: bool) {
         let nb: [u8; NLEN] = kani::any();
-        let n = place(&nb[..]);
+        let nz1 = [0u8; 1];
+        let n = place(crate::substr::nz(&nb, &nz1));
         let (hb, hlen) = sym_hay::<HMAX>(0, HMAX);
         let h = place(&hb.0[..hlen]);
         if rev {
@@ -252,7 +266,8 @@ pub mod packed {
     /// haystack min_haystack_len ..= min_haystack_len + extra.
     pub fn generic<const N: usize, const NLEN: usize, const HCAP: usize>(prefilter: bool) {
         let nb: [u8; NLEN] = kani::any();
-        let n = &nb[..];
+        let nz1 = [0u8; 1];
+        let n = crate::substr::nz(&nb, &nz1);
         let (i1, i2): (u8, u8) = (kani::any(), kani::any());
         let pair = match Pair::with_indices(n, i1, i2) {
             None => return,
@@ -289,7 +304,8 @@ pub mod packed {
     pub fn x86<const NLEN: usize, const HLEN: usize>(isa: u8, prefilter: bool) {
         use memchr::arch::x86_64::{avx2, sse2};
         let nb: [u8; NLEN] = kani::any();
-        let n = place(&nb[..]);
+        let nz1 = [0u8; 1];
+        let n = place(crate::substr::nz(&nb, &nz1));
         let (i1, i2): (u8, u8) = (kani::any(), kani::any());
         let pair = match Pair::with_indices(n, i1, i2) {
             None => return,
@@ -323,7 +339,8 @@ pub mod packed {
     /// Portable (memchr-based) prefilter.
     pub fn portable<const NLEN: usize, const HCAP: usize>(hmax: usize) {
         let nb: [u8; NLEN] = kani::any();
-        let n = place(&nb[..]);
+        let nz1 = [0u8; 1];
+        let n = place(crate::substr::nz(&nb, &nz1));
         let (i1, i2): (u8, u8) = (kani::any(), kani::any());
         let pair = match Pair::with_indices(n, i1, i2) {
             None => return,
@@ -392,7 +409,8 @@ pub mod meta {
     pub fn finder<const NLEN: usize, const HCAP: usize>(mode: u8, hmin: usize, hmax: usize) {
         force(mode);
         let nb: [u8; NLEN] = kani::any();
-        let n = place(&nb[..]);
+        let nz1 = [0u8; 1];
+        let n = place(crate::substr::nz(&nb, &nz1));
         let (hb, hlen) = sym_hay::<HCAP>(hmin, hmax);
         let h = place(&hb.0[..hlen]);
         let f = memmem::Finder::new(n);
@@ -411,7 +429,8 @@ pub mod meta {
     pub fn finder_rev<const NLEN: usize, const HCAP: usize>(hmin: usize, hmax: usize) {
         force(1);
         let nb: [u8; NLEN] = kani::any();
-        let n = place(&nb[..]);
+        let nz1 = [0u8; 1];
+        let n = place(crate::substr::nz(&nb, &nz1));
         let (hb, hlen) = sym_hay::<HCAP>(hmin, hmax);
         let h = place(&hb.0[..hlen]);
         let f = memmem::FinderRev::new(n);
